@@ -88,7 +88,7 @@ def main() -> int:
     if accepted != len(all_boards):
         rep.violation(f"{accepted} pairs accepted but {len(all_boards)} boards registered", key="accept-count")
     # ---- project round trip
-    n_proj = 300 if t == "quick" else 6000
+    n_proj = 1200 if t == "quick" else 6000
     ports = ["COM3", "/dev/ttyACM0", "/dev/tty.usbmodem-14101", "COM=7", "a:b", "x;y", "p#q", "100%", "%(board)s", "${env.port}",
              "[env]", "back\\slash", "sp ace", "ünï", "端口", "a=b=c", "--flag", "C:\\dev\\com1", "'q'", '"dq"']
     libs_pool = ["Servo", "LiquidCrystal", "LiquidCrystal_I2C", "", None, "Adafruit NeoPixel@^1.0", "owner/Lib", "Servo"]
